@@ -27,6 +27,9 @@ ARRAY_VALUES = {
     "tangent_vector": {"frac": [[1.5, 0.5, 1.0], [0.5, 1.5, 0.0]], "int": [[3, 2, 2], [2, 3, 0]]},
     "segment": {"frac": [[1.5, 0.5, 1.0], [1.0, 0.0, 0.25]], "int": [[3, 2, 2], [2, 0, 1]]},
     "polygon": {"frac": [[1.0, 0.5, 0.0], [1.0, 0.0, 0.5], [1.0, -0.5, -0.25]], "int": [[2, 1, 0], [2, 0, 1], [3, -1, -1]]},
+    "point_from_parts": {"frac": [1.5, 0.5, 1.0], "int": [3, 2, 2]},
+    "transformation_from_parts": {"frac": [[2, 0.5, 0], [0, 1, 0], [0, 0, 1]], "int": [[2, 1, 0], [0, 1, 0], [0, 0, 1]]},
+    "polygon_from_parts": {"frac": [[1.0, 0.5, 0.0], [1.0, 0.0, 0.5], [1.0, -0.5, -0.25]], "int": [[2, 1, 0], [2, 0, 1], [3, -1, -1]]},
 }
 
 
@@ -113,9 +116,22 @@ def call(entry, x):
     if entry == "polygon":
         p = H.Polygon(x)
         return [p.coords("klein"), p.get_edges().proj_data]
+    if entry == "point_from_parts":
+        p = H.Point([H.Point(x), H.Point(np.array([1.25, 0.75, 0.5]))])
+        return [p.proj_data, p.coords("klein")]
+    if entry == "transformation_from_parts":
+        t = P.Transformation([P.Transformation(x), P.Transformation(np.array([[1.0, 0.25, 0], [0, 1.5, 0], [0.5, 0, 1]]))])
+        return [t.matrix, (t @ P.Point(np.array([1.0, 2.0, 3.0]))).proj_data]
+    if entry == "polygon_from_parts":
+        p = H.Polygon([H.Polygon(x), H.Polygon(np.array([[1.0, 0.25, 0.5], [1.0, -0.5, 0.125], [1.0, 0.0, -0.75]]))])
+        return [p.proj_data, p.get_edges().proj_data, p.coords("klein")]
     if entry == "coxeter_matrix":
         G = coxeter.CoxeterGroup(matrix=x)
-        return [G.canonical_representation()["ab"], G.geometric_representation()["c"], G.hyperbolic_rep()["a"].matrix, G.bilinear_form()]
+        out = [G.canonical_representation()["ab"], G.geometric_representation()["c"], G.hyperbolic_rep()["a"].matrix, G.bilinear_form()]
+        # a second round on the same group object must give the same answers (the labels the caller supplied
+        # must not have been consumed / altered by the first round)
+        out += [G.canonical_representation()["ab"], G.bilinear_form(), np.asarray(G.cartan_matrix({(0, 2): -3.0}))]
+        return out
     if entry == "triangle_group":
         G = coxeter.TriangleGroup(x)
         return [G.canonical_representation()["abc"], G.hyperbolic_rep()["b"].matrix]
@@ -127,19 +143,24 @@ def call(entry, x):
 
 def make_input(entry, pack, val, canonical=False):
     if entry in ("coxeter_matrix", "triangle_group", "coxeter_diagram"):
-        labels = [[1, 3, 2], [3, 1, 7], [2, 7, 1]]
+        labels = [[1, 3, -1], [3, 1, 7], [-1, 7, 1]]           # an infinite label, written as a negative number
         if entry == "coxeter_matrix":
             if pack in ("ndarray_int64",):
                 return np.array(labels, dtype=np.int64)
+            if pack == "ndarray_float64":
+                return np.array(labels, dtype=np.float64)
+            if pack == "nested_list_float":
+                return [[float(v) for v in row] for row in labels]
             if pack == "nested_list_int":
                 return labels
             f = {"py_int": int, "np_int64": np.int64, "np_int32": np.int32}[pack]
             return [[f(v) for v in row] for row in labels]
-        f = {"py_int": int, "np_int64": np.int64, "np_int32": np.int32, "ndarray_int64": np.int64, "nested_list_int": int}[pack]
+        f = {"py_int": int, "np_int64": np.int64, "np_int32": np.int32, "ndarray_int64": np.int64, "nested_list_int": int,
+             "ndarray_float64": np.float64, "nested_list_float": float}[pack]
         if entry == "triangle_group":
             t = (f(3), f(3), f(4))
-            return np.array(t) if pack == "ndarray_int64" else (list(t) if pack == "nested_list_int" else t)
-        return [("a", "b", f(3)), ("b", "c", f(7)), ("c", "a", f(2))]
+            return np.array(t) if pack.startswith("ndarray") else (list(t) if pack.startswith("nested_list") else t)
+        return [("a", "b", f(3)), ("b", "c", f(7)), ("c", "a", f(-1))]
     if entry in ARRAY_VALUES:
         return pack_array(pack, ARRAY_VALUES[entry][val])
     v = SCALAR_VALUES.get(entry, SCALAR_VALUES["default"]).get(val, SCALAR_VALUES["default"][val])
@@ -185,7 +206,7 @@ def run(run):
                 if "cos" in e["followups"]:
                     utils.cos(arr)
                     np.cos(arr)
-                if arr.ndim >= 2 and arr.shape[-1] == arr.shape[-2] and "invert" in e["followups"] and abs(np.linalg.det(arr.astype(complex))) > 1e-9:
+                if arr.ndim >= 2 and arr.shape[-1] == arr.shape[-2] and "invert" in e["followups"] and np.all(np.abs(np.linalg.det(arr.astype(complex))) > 1e-9):
                     utils.invert(arr)
                     utils.eig(arr)
         except Exception as ex:
